@@ -125,10 +125,11 @@ def fam_script(retries_list, gaps, faults_key="full", conn_variants=True, kinds=
                                 sc = base(kind, ka, r, t=T * scale)
                                 # the kind of command rotates (read / single write / multi-register write): the budget of
                                 # a request does not depend on what it asks for
-                                # (fragment faults are about read answers: the model's "head" is the head of a read answer)
-                                k1 = OPS3[0] if any(mf["k"] in ("frag", "lone") for mf in script) else OPS3[nvar % 3]
-                                # the silent request is of the same kind: a late answer to the first request that arrives while
-                                # the second is pending fits it or not exactly as the model's abstract "answer" does
+                                # (only under scripts that deliver no answer and no piece of one: the model's abstract "answer" /
+                                # "head" fit any pending request, on the wire a read answer fits no write)
+                                plain = all(mf["k"] in ("drop", "garb", "dupg", "exc", "dupx", "pclose", "eof", "err", "serr") for mf in script)
+                                k1 = OPS3[nvar % 3] if plain else OPS3[0]
+                                # the silent request is of the same kind
                                 k2 = k1
                                 sc["epochs"] = [[{"start": 0, "prog": [dict(k1, reg=100), {"do": "sleep", "d": g * scale},
                                                                         dict(k2, reg=101),
